@@ -40,7 +40,7 @@ parsed == <<desc, params, ptypes, attrs, atypes, excs, ret, rtype>>
 
 \* aliasmod: a module in which every documented name is imported from a package that is not loaded (unresolvable alias)
 Parents == {"none", "module", "class", "function", "init", "property", "tuplefn", "genfn", "aliasmod", "tupleprop", "tuple0fn", "gen1fn", "gen2fn", "iterfn",
-            "detachedinit"}      \* detachedinit: a hand-built function named __init__ without any parent (not "__init__ in a class")
+            "detachedinit", "nsfunc"}      \* nsfunc: a function of a namespace package (filepath is a list) outside the cwd: warnings have no file prefix      \* detachedinit: a hand-built function named __init__ without any parent (not "__init__ in a class")
 FieldKinds == {"type", "param", "vartype", "var", "raises", "returns", "rtype"}
 Names == {"x", "y"}
 
